@@ -37,7 +37,8 @@ OriginOf(line) == {i \in DOMAIN ctrs : \E j \in DOMAIN ctrs[i].frames : ctrs[i].
 EntryOk == /\ Cardinality(OriginOf(Ev.line)) = 1
            /\ LET c == CHOOSE i \in OriginOf(Ev.line) : TRUE IN
               /\ c \in Sel
-              /\ PairsOf(Ev.labels) = CtrLabels(ctrs[c]) \cup {<<S_msg, Ev.line>>}
+              \* (a container label named msg takes precedence over the line's own msg label)
+              /\ PairsOf(Ev.labels) = CtrLabels(ctrs[c]) \cup {p \in {<<S_msg, Ev.line>>} : S_msg \notin NamesOf(CtrLabels(ctrs[c]))}
 EvEntry == IsEv("Entry") /\ EntryOk /\ Accept /\ nent' = nent + 1 /\ UNCHANGED <<ctrs, ms, tstart, tend, shape, range, off, called, returned>>
 
 RECURSIVE SumFrames(_)
